@@ -18,7 +18,8 @@ META = {
             "matrix or the identity, M the interpolation matrix of the operator's own grid (built with the card's degree, "
             "x-space mode) at the target points or the identity, absent flavours contributing zero, the division by x applied "
             "exactly once, labels taken from the basis actually rotated to; errors go through the same chain with the stored "
-            "error tensor and exist only for operators that have one.",
+            "error tensor and exist only for operators that have one."
+            " The internal points in another order as target grid give the permutation (shared with C34).",
     "note": "Values of the interpolation matrix itself are C34.",
     "technique": "partial evaluation with symbolic tensors and a symbolic PDF object + polynomial identity testing over F_p",
     "engine": "sa",
